@@ -37,7 +37,7 @@ ASSUMPTIONS = ['no .xls writer is available offline: the xlrd code path is exerc
                'route lists of services name ROADM sites (the documented case)']
 REQUIRED_COUNTERS = {'workbooks_converted': 30, 'fibre_checks': 200, 'amplifier_placement_checks': 60,
                      'invalid_workbooks': 15, 'service_rows_checked': 40, 'designs_of_converted_topologies': 30,
-                     'xls_xlsx_differentials': 2}
+                     'xls_xlsx_differentials': 2, 'line_routes_checked': 5, 'ila_route_entries': 5}
 CASE_TIMEOUT = {'quick': 300, 'thorough': 600}
 ARROW = '→'
 
@@ -495,6 +495,41 @@ def gen_services(rng, desc, types):
                      'power': rng.choice([None, 0, 1, -1.5]), 'nch': rng.choice([None, 40, 60]),
                      'disjoint': None, 'path': path, 'loose': rng.choice([None, 'yes', 'no', 'Yes']),
                      'bw': rng.choice([None, 100, 200, 150.5])})
+    # routes that follow a real line of the workbook and name its intermediate sites whatever their type (ROADM, ILA,
+    # FUSED): an ILA / FUSED entry stands for the element of that site that faces the next named site
+    adj = {}
+    for r in desc['links']:
+        adj.setdefault(r['a'], set()).add(r['z'])
+        adj.setdefault(r['z'], set()).add(r['a'])
+    def line_between(a, z):
+        prev, todo = {a: None}, [a]
+        while todo and z not in prev:
+            c = todo.pop(0)
+            for n in sorted(adj.get(c, ())):
+                if n not in prev:
+                    prev[n] = c
+                    todo.append(n)
+        if z not in prev:
+            return None
+        line = [z]
+        while prev[line[-1]] is not None:
+            line.append(prev[line[-1]])
+        return line[::-1]
+    candidates = []
+    for a in roadms:
+        for z in roadms:
+            if a != z:
+                line = line_between(a, z)
+                if line:
+                    mids = line[1:-1]
+                    while mids and types[mids[-1]] != 'ROADM':
+                        mids.pop()      # (an ILA named right before the destination: the direction is not decidable)
+                    if mids and any(types[c] != 'ROADM' for c in mids):
+                        candidates.append((a, z, mids, line))
+    for row in rows:
+        if candidates and rng.random() < 0.5:
+            a, z, mids, line = rng.choice(candidates)
+            row.update(src=a, dst=z, path=' | '.join(mids), line=line)
     if len(rows) >= 2 and rng.random() < 0.6:
         rows[0]['disjoint'] = str(rows[1]['id'])
         if len(rows) >= 3 and rng.random() < 0.4:
@@ -547,7 +582,36 @@ def run_service(case, ctx, tmp):
         route = req.get('explicit-route-objects', {}).get('route-object-include-exclude', [])
         exp_nodes = [f'roadm {c}' for c in row['path'].split(' | ')] if row['path'] else []
         exp_hop = 'LOOSE' if row['loose'] in (None, 'yes', 'Yes') else 'STRICT'
-        if [o['num-unnum-hop']['node-id'] for o in route] != exp_nodes:
+        if row.get('line'):
+            # structural oracle for routes naming ILA / FUSED sites: nothing dropped, ROADM entries by name, every
+            # other entry an element of the network whose next fibre leaves that site towards the next site of the line
+            ctx.count('line_routes_checked')
+            ids = [o['num-unnum-hop']['node-id'] for o in route]
+            cities = row['path'].split(' | ')
+            byuid = {n.uid: n for n in network.nodes()}
+            if len(ids) != len(cities):
+                ctx.violation('service-route', f'row {row["id"]}: route {ids}, the sheet lists {cities} along the line '
+                              f'{row["line"]} (types {[m["types"][c] for c in cities]})')
+            else:
+                for c, nid in zip(cities, ids):
+                    nxt = row['line'][row['line'].index(c) + 1]
+                    if m['types'][c] == 'ROADM':
+                        ok = nid == f'roadm {c}'
+                    else:
+                        ctx.count('ila_route_entries')
+                        cur, ok = byuid.get(nid), False
+                        for _ in range(6):
+                            if cur is None:
+                                break
+                            if type(cur).__name__ == 'Fiber':
+                                ok = cur.uid.startswith(f'fiber ({c} {ARROW} {nxt})')
+                                break
+                            cur = next(iter(network.successors(cur)), None)
+                    if not ok:
+                        ctx.violation('service-route', f'row {row["id"]}: entry {c} ({m["types"][c]}) of the route '
+                                      f'{cities} became {nid!r}, which is not the element of {c} facing {nxt}')
+                        break
+        elif [o['num-unnum-hop']['node-id'] for o in route] != exp_nodes:
             ctx.violation('service-route', f'row {row["id"]}: route {[o["num-unnum-hop"]["node-id"] for o in route]}, '
                           f'the sheet lists {exp_nodes}')
         elif any(o['num-unnum-hop']['hop-type'] != exp_hop for o in route) or \
